@@ -1,18 +1,26 @@
 #![allow(clippy::too_many_arguments, clippy::type_complexity)]
 pub mod actors;
 pub mod dynh;
+#[cfg(any(feature = "l1", feature = "mt"))]
 pub mod families;
+#[cfg(any(feature = "l1", feature = "mt"))]
 pub mod genp;
+#[cfg(any(feature = "l1", feature = "mt"))]
 pub mod index;
 pub mod interp;
 pub mod log;
+#[cfg(any(feature = "l1", feature = "mt"))]
 pub mod oracle;
 pub mod prog;
 pub mod rng;
 pub mod rt;
+#[cfg(any(feature = "l1", feature = "mt"))]
 pub mod runner;
 pub mod scenario;
+#[cfg(any(feature = "l1", feature = "mt"))]
 pub mod vexec;
+#[cfg(all(not(feature = "l1"), not(feature = "mt")))]
+pub mod xrt;
 
 pub fn panic_msg(p: &Box<dyn std::any::Any + Send>) -> String {
     if p.is::<actors::InjectedPanic>() {
@@ -42,6 +50,13 @@ fn main() {
     let args: Vec<String> = std::env::args().collect();
     match args.get(1).map(|s| s.as_str()) {
         // hv shard --prop C01 --tier quick --seed 1 --shard 0 --nshards 16 --plan mailbox:4000,x:100 --out f --replays dir
+        #[cfg(all(not(feature = "l1"), not(feature = "mt")))]
+        Some("xrt") => {
+            let out = arg(&args, "--out").expect("--out");
+            let repeat: u32 = arg(&args, "--repeat").and_then(|s| s.parse().ok()).unwrap_or(1);
+            xrt::run(out, repeat);
+        }
+        #[cfg(any(feature = "l1", feature = "mt"))]
         Some("shard") => {
             let plan = arg(&args, "--plan")
                 .unwrap_or("")
@@ -66,6 +81,7 @@ fn main() {
             runner::run_shard(&a);
         }
         // hv replay --prop C01 --profile mailbox --case-seed N [--thorough] [--trace]
+        #[cfg(any(feature = "l1", feature = "mt"))]
         Some("replay") => {
             let prop = arg(&args, "--prop").expect("--prop");
             let pname = arg(&args, "--profile").expect("--profile");
